@@ -92,12 +92,13 @@ fn exec_ops(ctx: &mut Ctx, ev: &Ev) {
         let ns = [!&a, !a.clone()];
         let va: Vec<bool> = (0..1usize << n).map(|m| a.value(m)).collect();
         let la_ = Lut::from(&a);
+        let la_v = Lut::from(a.clone());
         let long: Vec<Cube> = (0..la.len() + lb.len() + 3).map(|k| Cube::nth_var(k % (n + 2))).collect();
         let dsts = vec![b.clone(), Esop::zero(n + 1), Esop::one(n + 2), Esop::from_cubes(n + 2, long.clone()), Esop::from_cubes(n + 3, long), Esop::zero(0)];
         let routes = vmon::obs::clone_routes(&a, &dsts, &|x: &Esop, y: &Esop| x.num_vars() == y.num_vars() && x.cubes() == y.cubes() && Lut::from(x) == Lut::from(y));
-        (a.is_zero(), a.is_one(), a.num_vars(), a.num_cubes(), va, la_, xs, ns, self_vals, routes)
+        (a.is_zero(), a.is_one(), a.num_vars(), a.num_cubes(), va, la_, la_v, xs, ns, self_vals, routes)
     });
-    let (isz, iso, nv, nc, va, lut_a, xs, ns, self_vals, routes) = match r {
+    let (isz, iso, nv, nc, va, lut_a, lut_av, xs, ns, self_vals, routes) = match r {
         Outcome::Returned(x) => x,
         Outcome::Panicked(msg) => {
             ctx.violate("no-panic", ev, "esop-ops", format!("Esop operation panicked: {}", msg));
@@ -112,6 +113,7 @@ fn exec_ops(ctx: &mut Ctx, ev: &Ev) {
     let fb = xor_sets(n, &lb);
     ctx.check("esop-value-parity", va == fa && nv == n && nc == la.len(), ev, "value", || "Esop::value is not the parity of its cubes".into());
     ctx.check("esop-to-lut", Model::from_blocks(n, lut_a.blocks()).bits == fa && lut_a.num_vars() == n && vmon::obs::well_formed(n, lut_a.blocks()).is_ok(), ev, "lut", || "Lut::from(&esop) is not the tabulated XOR".into());
+    ctx.check("esop-to-lut", lut_av == lut_a, ev, "lut-by-value", || "Lut::from(esop), by value, differs from Lut::from(&esop)".into());
     ctx.check("esop-is-zero-sound", !isz || fa.iter().all(|b| !*b), ev, "is_zero", || "is_zero on a non-zero Esop".into());
     ctx.check("esop-is-one-sound", !iso || fa.iter().all(|b| *b), ev, "is_one", || "is_one on a non-one Esop".into());
     ctx.check("esop-xor-semantic", self_vals.iter().all(|b| !*b), ev, "aliased &a ^ &a", || "&a ^ &a (one object on both sides) is not the constant zero over the same variables (value, num_vars or Lut::from)".into());
@@ -203,10 +205,12 @@ fn exec_chain(ctx: &mut Ctx, ev: &Ev) {
         }
         // a result of the wrong arity is reported below (empty table), never tabulated
         let l = if acc.num_vars() == n { Lut::from(&acc) } else { Lut::zero(0) };
-        (steps, l)
+        // the owning conversion is a route of its own (`From<Esop> for Lut`)
+        let lv = if acc.num_vars() == n { Lut::from(acc) } else { Lut::zero(0) };
+        (steps, l, lv)
     });
     match r {
-        Outcome::Returned((steps, l)) => {
+        Outcome::Returned((steps, l, lv)) => {
             let mut want = meanings[0].clone();
             for (k, (vals, cubes, isz, iso)) in steps.iter().enumerate() {
                 for (w, m) in want.iter_mut().zip(meanings[k + 1].iter()) {
@@ -219,6 +223,7 @@ fn exec_chain(ctx: &mut Ctx, ev: &Ev) {
                 ctx.check("esop-is-one-sound", !*iso || want.iter().all(|b| *b), ev, "chain-is_one", || "is_one on a non-one chain result".into());
             }
             ctx.check("esop-to-lut", l.num_vars() == n && Model::from_blocks(n, l.blocks()).bits == want, ev, "chain-lut", || "Lut::from(&chain result) is not the XOR of the operands".into());
+            ctx.check("esop-to-lut", lv.num_vars() == n && Model::from_blocks(n, lv.blocks()).bits == want, ev, "chain-lut-by-value", || "Lut::from(chain result), by value, is not the XOR of the operands".into());
         }
         Outcome::Panicked(msg) => ctx.violate("no-panic", ev, "esop-chain", format!("Esop ^-chain panicked: {}", msg)),
     }
